@@ -223,7 +223,23 @@ impl Prop for C18 {
             gen_params(r, &mut m, false);
             m
         };
-        let tree = if i < nw * 14 {
+        let n_shapes = SHAPES.len() as u64;
+        // systematic ultra-long block: every view alone, small power-of-two-ish windows, periodic feed, strict oracle
+        let ultra_ns: &[usize] = if tier == Tier::Quick { &[4] } else { &[4, 3, 7, 8, 16, 32] };
+        let ultra_lo = nw * n_shapes + nw * nw;
+        let ultra_hi = ultra_lo + nw * ultra_ns.len() as u64;
+        let sys_ultra = i >= ultra_lo && i < ultra_hi;
+        let tree = if sys_ultra {
+            let j = i - ultra_lo;
+            let k = ws[(j % nw) as usize];
+            let n = ultra_ns[(j / nw) as usize].max(min_window(k));
+            let mut s = wrap(r, k, n, Spec::echo(), Some(Spec::un(K::Sma, n, Spec::echo())));
+            s.default_params();
+            if s.k == K::Roofing {
+                s.m = 4;
+            }
+            s
+        } else if i < nw * n_shapes {
             // every view alone under every workload shape
             let k = ws[(i % nw) as usize];
             let n = *r.pick(&[2usize, 3, 5, 8, 16, 40]);
@@ -231,9 +247,9 @@ impl Prop for C18 {
             let mut s = wrap(r, k, n, Spec::echo(), Some(m1));
             gen_params(r, &mut s, false);
             s
-        } else if i < nw * 14 + nw * nw {
+        } else if i < nw * n_shapes + nw * nw {
             // every two-level chain
-            let j = i - nw * 14;
+            let j = i - nw * n_shapes;
             let outer = ws[(j % nw) as usize];
             let inner = ws[((j / nw) % nw) as usize];
             let need_pos = matches!(outer, K::Drawdown | K::LnReturn);
@@ -258,18 +274,18 @@ impl Prop for C18 {
             }
         };
         let positive = tree.needs_positive_feed();
-        let shape = if i < nw * 14 { (i / nw) as u8 } else { r.below(SHAPES.len()) as u8 };
+        let shape = if i < nw * n_shapes { (i / nw) as u8 } else { r.below(SHAPES.len()) as u8 };
         // a third of the runs outside the systematic block use a periodic feed (where the strict oracle applies)
-        let shape = if i >= nw * 14 && r.chance(0.3) { *r.pick(&[14u8, 14, 14, 4, 6]) } else { shape };
+        let shape = if sys_ultra { 14 } else if i >= nw * n_shapes && r.chance(0.3) { *r.pick(&[14u8, 14, 14, 4, 6]) } else { shape };
         let scale = *r.pick(SCALES) / 4.25;
         let l0 = warm_len(&tree);
-        let fork = tree.cloneable() && r.chance(0.3);
+        let fork = !sys_ultra && tree.cloneable() && r.chance(0.3);
         let reference = if fork { 2 * l0 } else { l0 };
         // at least two doublings after the reference checkpoint
         let min_len = 4 * reference + 1;
         // ultra-long runs (beyond 2^22 and 2^23 deliveries) for trees that are cheap enough: a leak of one slot
         // per few million updates only shows there, and only under the strict no-growth oracle
-        let ultra = r.chance(if tier == Tier::Quick { 0.004 } else { 0.01 });
+        let ultra = sys_ultra || r.chance(if tier == Tier::Quick { 0.004 } else { 0.01 });
         let len = if ultra {
             (120_000_000 / work_per_update(&tree)).clamp(min_len.max(40_000), 9_000_000)
         } else {
@@ -290,7 +306,7 @@ impl Prop for C18 {
         sc.feeds.push(Feed::Gen { seed: r.next_u64(), shape, len, scale, positive, quant: 0.0 });
         sc.set_int("fork_at", if fork { l0 as i64 } else { -1 });
         sc.set_int("drop_orig", r.chance(0.5) as i64);
-        let reclone = sc.trees[0].cloneable() && r.chance(0.15);
+        let reclone = !sys_ultra && sc.trees[0].cloneable() && r.chance(0.15);
         sc.set_int("reclone_every", if reclone { *r.pick(&[1i64, 7, 100, 1000]) } else { 0 });
         sc
     }
@@ -396,7 +412,7 @@ impl Prop for C18 {
     }
 
     fn rule(&self) -> String {
-        "Block 1: every wrapper alone under each of the 14 workload shapes (which branch pushes can depend on the data). Block 2: every ordered pair of wrappers as a two-level chain. Block 3: random trees (depth 1-3, combinators, stalls). 15% of runs replace the replica by its own clone every 1/7/100/1000 deliveries (dropping the original); 30% of runs clone the replica after the warm-up L0 = 8*(sum of window lengths)+256 deliveries and continue with the clone (dropping the original in half of them). Streams come from the seeded generator: quick 40k-400k deliveries, thorough 60k+, 5% 400k+, 0.2% 4,000,001. A counting #[global_allocator] keeps per-thread live bytes; the harness allocates nothing between construction and the last checkpoint. Oracle 2 (strict, only where sound: a periodic feed - constant, alternating or a repeated pattern of period <= 48 -, trees without EFT in which no view with data-dependent readiness sits below another node, and no re-cloning): the largest live-byte count seen in the second half of each later checkpoint interval must not exceed the largest seen in (R/2, R] (interval maxima rather than point samples, so that an implementation that trims in batches, with a saw-tooth footprint, is not flagged). 0.4% (thorough 1%) of the runs are ultra-long, up to 9 000 000 deliveries, sized by the tree's cost per update. Oracle 1: at every checkpoint R, 2R, 4R, 8R, ... (R = L0, or fork point + L0) the live bytes stay below a bound that depends on the window lengths only (per node 1 KiB + eight 8-byte buffers at twice the next power of two above the window; about 5-10x the real footprint). A push-per-update leak of one f64 exceeds it within a few thousand deliveries. (A first version demanded 'no growth after L0'; that raised a false alarm on EFT, whose moving average is fed only when the window is not flat and therefore reaches its final capacity late. Removed.) distinct = distinct (topology, feed length, fork choice); non-trivial = at least three checkpoints (two doublings) were compared."
+        "Block 1: every wrapper alone under each of the 15 workload shapes (which branch pushes can depend on the data). Block 2: every ordered pair of wrappers as a two-level chain. Block 3: every wrapper alone with a window of 4 (thorough: 4, 3, 7, 8, 16, 32) on an ultra-long periodic stream (up to 9 000 000 deliveries, sized by the view's cost per update). Block 4: random trees (depth 1-3, combinators, stalls). 15% of runs replace the replica by its own clone every 1/7/100/1000 deliveries (dropping the original); 30% of runs clone the replica after the warm-up L0 = 8*(sum of window lengths)+256 deliveries and continue with the clone (dropping the original in half of them). Streams come from the seeded generator: quick 40k-400k deliveries, thorough 60k+, 5% 400k+, 0.2% 4,000,001. A counting #[global_allocator] keeps per-thread live bytes; the harness allocates nothing between construction and the last checkpoint. Oracle 2 (strict, only where sound: a periodic feed - constant, alternating or a repeated pattern of period <= 48 -, trees without EFT in which no view with data-dependent readiness sits below another node, and no re-cloning): the largest live-byte count seen in the second half of each later checkpoint interval must not exceed the largest seen in (R/2, R] (interval maxima rather than point samples, so that an implementation that trims in batches, with a saw-tooth footprint, is not flagged). 0.4% (thorough 1%) of the runs are ultra-long, up to 9 000 000 deliveries, sized by the tree's cost per update. Oracle 1: at every checkpoint R, 2R, 4R, 8R, ... (R = L0, or fork point + L0) the live bytes stay below a bound that depends on the window lengths only (per node 1 KiB + eight 8-byte buffers at twice the next power of two above the window; about 5-10x the real footprint). A push-per-update leak of one f64 exceeds it within a few thousand deliveries. (A first version demanded 'no growth after L0'; that raised a false alarm on EFT, whose moving average is fed only when the window is not flat and therefore reaches its final capacity late. Removed.) distinct = distinct (topology, feed length, fork choice); non-trivial = at least three checkpoints (two doublings) were compared."
             .into()
     }
     fn assumptions(&self) -> Vec<String> {
